@@ -60,9 +60,9 @@ def run(prop, tier):
     at = C.quiet_atomica()
     V = C.Verdict(prop)
     thorough = tier == "thorough"
-    # (programs, small grids, sample): 1-3 programs (and 4 in the thorough tier) over every vector of the grids; 4 and 5 programs on random
+    # (programs, small grids, sample): 1-3 programs over every vector of the grids (the larger grids in the thorough tier); 4 and 5 programs on random
     # outcome / coverage vectors drawn by TLC (RandomSubset)
-    plan = [(1, False, None), (2, False, None), (3, not thorough, None)] + ([(4, True, None)] if thorough else [(4, True, (5, 16))]) + [(5, True, (6, 20) if thorough else (3, 10))]
+    plan = [(1, False, None), (2, False, None), (3, not thorough, None)] + ([(4, True, (12, 40))] if thorough else [(4, True, (5, 16))]) + [(5, True, (6, 20) if thorough else (3, 10))]
     cov = dict(states=0, transitions=0, traces_validated_against_impl=0, samples=[], exhaustive=True, plan=[])
     records = []
     cases_all = []
@@ -75,7 +75,7 @@ def run(prop, tier):
             gen = {"MCCovout.tla": open(C.SPEC + "/MCCovout.tla").read().replace("====", "MCSample == <<%d, %d>>\nMCSampOut == %s\nMCSampCov == %s\n====" % (
                 sample[0], sample[1], C.sample_vectors(rng_, outs_, n, sample[0]), C.sample_vectors(rng_, covs_, n, sample[1])))}
             cov["exhaustive"] = False
-            cov["exhaustive_note"] = "1-3 programs (4 in the thorough tier) exhaustive over the grids; 4 / 5 programs on vectors drawn with the harness's seeded generator"
+            cov["exhaustive_note"] = "1-3 programs exhaustive over the grids; 4 / 5 programs on vectors drawn with the harness's seeded generator (exhaustive enumeration of 4 programs does not finish in 50 minutes)"
         r, cases = C.enumerate_cases(["Rat", "Covout", "MCCovout"], "MCCovout", cfg(n, small, sample), timeout=3000 if thorough else 1500, generated=gen)
         cov["states"] += r.distinct
         cov["transitions"] += r.generated
